@@ -15,6 +15,11 @@ TRUSTED_BASE = _life.TRUSTED_BASE + [
     '(is None / is not None with narrowing, value semantics of or/and, conditional expressions, walrus, ==), of `if` statements '
     '(continuations), of an awaited hook call (suspension with a continuation) and of itertools.count / NewType; a statement is '
     'an opaque id (its truth value is refused), isinstance(statement, str) is taken to be true (the model\'s statements are scripts)',
+    'arg_composer tie, not covered: a hook that raises / a cancellation at the nested `await on_change_script` has no label in '
+    'Life/Model.v (C14_tie_reset_interrupted_at_hook states what the transcribed code leaves behind; the methods contain no try/with, '
+    'the translator refuses them); the option records are followed from the arguments of Nextline(...)/Nextline.reset(...) to the call '
+    'of Imp(...)/Imp.reset(...) only -- Imp, fsm/machine.py, fsm/callback.py passing them on to the `init`/`reset` hooks is not part of '
+    'this translator; gen_initialize_run (order of the built-in plugins, storing run_arg) is hand-written glue',
 ]
 ASSUMPTIONS = _life.ASSUMPTIONS
 correspond, search, replay = _life.make('C14')
